@@ -572,6 +572,26 @@ def run(tier, only=None):
                               "%s dereferences the cell after another one although no enclosing condition establishes that `%s` is "
                               "non-null: a token list that ends here (input ending at this token) faults" % (st["expr"], st["inner"]))
     rep.floor("list-cell dereferences scanned in the front-end units", nd, 120)
+    # ---- K7 ---------------------------------------------------------------
+    from . import variant_guard
+    fz = json.load(open(os.path.join(FROZEN, "c07_variant_access.json")))
+    vs = variant_guard.scan(common.extract("abcheck.c", all_trees=True), "abcheck.c")
+    nv = 0
+    for st in vs:
+        nv += 1
+        key = "variant-access:%s:%s:%s" % (st["func"], st["base"], st["member"])
+        where = "abcheck.c:%d (%s)" % (st["line"], st["func"])
+        if st["how"] is not None:
+            rep.ok("K7", key + "@%d" % st["line"], nontrivial=(st["how"] != "dispatch"),
+                   sample={"site": where, "access": "%s->%s" % (st["base"], st["member"]), "established_by": st["how"]} if nv in (5, 40) else None)
+        elif "%s:%s:%s" % (st["func"], st["base"], st["member"]) in fz:
+            rep.note("K7 frozen %s: %s" % (key, fz["%s:%s:%s" % (st["func"], st["base"], st["member"])]))
+        else:
+            rep.violation("K7", key, where,
+                          "the form checker reads %s->%s although nothing establishes that the node's tag is %s (no tag dispatch, no "
+                          "enclosing or preceding tag test): for source text that puts another form there the compiler reads a "
+                          "different variant of the union and faults" % (st["base"], st["member"], st["tag"]))
+    rep.floor("variant member accesses in abcheck.c", nv, 50)
     # ---- K2 ---------------------------------------------------------------
     f_comsg = common.extract("comsg.c", all_trees=True, all_cfg=True)
     allowed = {"comsgVError": {"post++", "++"}, "comsgVFatal": {"post++", "++"}, "comsgInit": {"="}}
